@@ -8,6 +8,7 @@ use barter::{
     },
     execution::builder::ExecutionBuilder,
 };
+use barter_execution::map::generate_execution_instrument_map;
 use barter_instrument::{
     Keyed,
     asset::AssetIndex,
@@ -203,6 +204,92 @@ fn emit_idx(em: &mut Emitter, stream: &'static str, ds: &[Def], added: &[Exchang
         stream,
         input: json!({"kind": "idx", "instruments": defs_to_json(ds), "added": exchanges_to_json(&added)}),
         coq,
+        nontrivial: !ds.is_empty(),
+        tags: tags.clone(),
+    });
+    if !replaying() {
+        let keep: Vec<String> = tags.into_iter().filter(|t| !t.starts_with("links_") && t != "built").collect();
+        emit_xmap(em, stream, ds, &keep);
+    }
+}
+
+/// in `exec` mode every input names its own kind: an "idx" input must not emit a second case
+fn replaying() -> bool {
+    std::env::args().nth(1).as_deref() == Some("exec")
+}
+
+/// The execution-link table of EVERY exchange of the case universe: index -> name on every
+/// global index (own, foreign, out of range) and name -> index on every exchange name.
+fn emit_xmap(em: &mut Emitter, stream: &'static str, ds: &[Def], tags_in: &[String]) {
+    let u = Universe::new(ds);
+    let mut tags: Vec<String> = tags_in.to_vec();
+    let obs = catch(AssertUnwindSafe(|| {
+        let built = build_catching(ds.to_vec(), false)?;
+        let mut maps = vec![];
+        let mut t = vec![];
+        for e in &u.exs {
+            // a panic inside a lookup is reported as "no map", which the oracle rejects for an
+            // indexed exchange
+            let one = catch(AssertUnwindSafe(|| {
+                let m = generate_execution_instrument_map(&built, *e).ok()?;
+                let as_name: Vec<(String, String)> = (0..built.assets().len() + 2)
+                    .map(|k| {
+                        (k.to_string(), opt(m.find_asset_name_exchange(AssetIndex(k)).ok().map(|n| u.ane(n).to_string())))
+                    })
+                    .collect();
+                let as_ix: Vec<(String, String)> = u
+                    .ane
+                    .iter()
+                    .map(|n| (u.ane(n).to_string(), coq_opt_n(m.find_asset_index(n).ok().map(|i| i.0))))
+                    .collect();
+                let in_name: Vec<(String, String)> = (0..built.instruments().len() + 2)
+                    .map(|k| {
+                        (
+                            k.to_string(),
+                            opt(m.find_instrument_name_exchange(InstrumentIndex(k)).ok().map(|n| u.ine(n).to_string())),
+                        )
+                    })
+                    .collect();
+                let in_ix: Vec<(String, String)> = u
+                    .ine
+                    .iter()
+                    .map(|n| (u.ine(n).to_string(), coq_opt_n(m.find_instrument_index(n).ok().map(|i| i.0))))
+                    .collect();
+                Some(format!("(mkXMap {} {} {} {})", pairs(&as_name), pairs(&as_ix), pairs(&in_name), pairs(&in_ix)))
+            }));
+            match one {
+                Ok(Some(o)) => {
+                    t.push("xmap_some".to_string());
+                    maps.push(format!("({}, (Some {}))", u.ex(e), o));
+                }
+                Ok(None) => {
+                    t.push("xmap_none".to_string());
+                    maps.push(format!("({}, None)", u.ex(e)));
+                }
+                Err(_) => {
+                    t.push("lookup_panicked".to_string());
+                    maps.push(format!("({}, None)", u.ex(e)));
+                }
+            }
+        }
+        Some((coq_indexed(&built, &u), maps, t))
+    }));
+    let (built_s, maps) = match obs {
+        Ok(Some((b, m, t))) => {
+            tags.extend(t);
+            (format!("(Some {})", b), m)
+        }
+        _ => {
+            tags.push("build_panicked".into());
+            ("None".to_string(), vec![])
+        }
+    };
+    tags.sort();
+    tags.dedup();
+    em.emit(Case {
+        stream,
+        input: json!({"kind": "xmap", "instruments": defs_to_json(ds)}),
+        coq: format!("(CXMap {} {} {})%N", coq_defs(ds, &u), built_s, list(&maps)),
         nontrivial: !ds.is_empty(),
         tags,
     });
@@ -509,7 +596,9 @@ fn main() {
             for (inp, stream) in read_inputs(args.input.as_deref().expect("--in")) {
                 let st = stream_static(&stream);
                 let Some(ds) = defs_from_json(&inp["instruments"]) else { continue };
-                if inp["kind"] == "perm" {
+                if inp["kind"] == "xmap" {
+                    emit_xmap(&mut em, st, &ds, &[]);
+                } else if inp["kind"] == "perm" {
                     emit_perm(
                         &mut em,
                         st,
